@@ -133,8 +133,46 @@ def leaked_uses(func):
     return out
 
 
+def used_after_loop(func):
+    """(name, use node, loop) for names bound only inside a loop over the components (body or target) and
+    read after that loop, outside it: whatever is computed from them belongs to the last component only."""
+    pm = parents_map(func.node)
+    out = []
+    params = {a.arg for a in func.node.args.args} | {a.arg for a in func.node.args.kwonlyargs}
+
+    def inside(n, lp):
+        p = pm.get(n)
+        while p is not None:
+            if p is lp:
+                return True
+            p = pm.get(p)
+        return False
+    stores = [n for n in walk_no_nested(func.node) if isinstance(n, ast.Name) and isinstance(n.ctx, ast.Store)]
+    for lp in [n for n in walk_no_nested(func.node) if isinstance(n, ast.For)]:
+        if any(isinstance(p_, (ast.For, ast.While)) and inside(lp, p_) for p_ in walk_no_nested(func.node)):
+            continue          # nested loops are judged with their outermost loop
+        bound = {n.id for n in stores if inside(n, lp)}
+        elsewhere = {n.id for n in stores if not inside(n, lp)}
+        only = bound - elsewhere - params
+        for n in walk_no_nested(func.node):
+            if isinstance(n, ast.Name) and isinstance(n.ctx, ast.Load) and n.id in only and not inside(n, lp) \
+                    and n.lineno > lp.end_lineno:
+                out.append((n.id, n, lp))
+    return out
+
+
 def rule_A(run, prog):
     rid = "C09-A"
+    for q in INITS:
+        f = prog.func(q)
+        prog.consulted.add(f.relpath)
+        ua = used_after_loop(f)
+        names = sorted({n for n, _, _ in ua})
+        run.obligation(rid, f.short, not ua, key="component-value-used-after-loop",
+                       message="%s is bound only inside the loop over the components and read after it: what is built "
+                               "from it (%s) belongs to the last component only, not to the sum"
+                       % (names, norm(parents_map(f.node).get(ua[0][1]))[:60] if ua else ""),
+                       loc=f.loc(ua[0][1]) if ua else f.loc(), sample={"constructor": f.short, "names": names})
     for q in INITS:
         f = prog.func(q)
         prog.consulted.add(f.relpath)
@@ -188,6 +226,44 @@ def _stmts(f):
     return [norm(s) for s in ast.walk(f.node) if isinstance(s, ast.stmt)]
 
 
+def _refusals_after_effects(f):
+    """[(text of the raise, text of an earlier write to self, raise node)] for every raise that is preceded,
+    in an enclosing statement list, by a statement that writes an attribute of self or mutates one in place"""
+    pm = parents_map(f.node)
+
+    def writes_self(st):
+        for n in ast.walk(st):
+            if isinstance(n, (ast.Assign, ast.AugAssign)):
+                for t_ in (n.targets if isinstance(n, ast.Assign) else [n.target]):
+                    b = t_
+                    while isinstance(b, ast.Subscript):
+                        b = b.value
+                    if isinstance(b, ast.Attribute) and norm(b).startswith("self."):
+                        return norm(n)[:50]
+            if isinstance(n, ast.Call) and isinstance(n.func, ast.Attribute) and n.func.attr in ("append", "extend", "update") \
+                    and norm(n.func.value).startswith("self."):
+                return norm(n)[:50]
+        return None
+    out = []
+    for r in [n for n in walk_no_nested(f.node) if isinstance(n, ast.Raise)]:
+        node = r
+        hit = None
+        while node is not f.node and node is not None and hit is None:
+            par = pm.get(node)
+            for fld in ("body", "orelse", "finalbody"):
+                b = getattr(par, fld, None)
+                if isinstance(b, list) and node in b:
+                    for st in b[:b.index(node)]:
+                        w = writes_self(st)
+                        if w:
+                            hit = w
+                            break
+            node = par
+        if hit:
+            out.append((norm(r)[:60], hit, r))
+    return out
+
+
 def rule_B(run, prog):
     rid = "C09-B"
     for cls_q, cname, other_names in ((CF + "CorrelationFunction", "CorrelationFunction", ("other", "ocor")),
@@ -210,6 +286,13 @@ def rule_B(run, prog):
             ok = len(ifs) == 1 and any(isinstance(x, ast.Raise) for x in ifs[0].orelse)
             run.obligation(rid, "%s.%s" % (cname, mname), ok, key="same-axis",
                            message="operands on different axes must be refused", loc=f.loc())
+            # a refusal must come before the first change of self: an exception raised after the data were
+            # added leaves an object whose data are not the sum of its recorded components
+            late = _refusals_after_effects(f)
+            run.obligation(rid, "%s.%s" % (cname, mname), not late, key="refuse-before-mutate",
+                           message="%s raises (%s) after it has already changed self (%s): a refused addition leaves "
+                                   "the left operand modified" % (mname, late[0][0] if late else "", late[0][1] if late else ""),
+                           loc=f.loc(late[0][2]) if late else f.loc())
             if cname == "CorrelationFunction":
                 tchk = [n for n in walk_no_nested(f.node) if isinstance(n, ast.If)
                         and norm(n.test) == "self.temperature != %s.temperature" % o
@@ -389,6 +472,18 @@ def rule_E(run, prog):
                                "; ".join(m for _, m, _ in problems[:3])),
                            loc=f.loc(problems[0][2]) if problems else f.loc(),
                            sample={"builder": bname, "receives": state, "energy_uses": bf.uses, "problems": kinds})
+        # every object rebuilt from stored (internal-unit) parameters, in any method, is constructed under
+        # internal units
+        reb = unitflow.stored_param_rebuilds(prog, cls)
+        if len(reb) < 3:
+            raise AnalysisError("%s: only %d constructions from stored parameters found (copy, sums, conversions "
+                                "were confirmed)" % (cname, len(reb)))
+        for fn, call, inside, src in reb:
+            run.obligation(rid, fn.short, inside, key="units:rebuild:" + norm(call.func) + "(" + src[:30] + ")",
+                           message="%s constructs %s from stored parameters (%s, internal units) outside "
+                                   "energy_units('int'): the constructor converts them again from the units current "
+                                   "for the caller" % (fn.short, norm(call.func), src), loc=fn.loc(call),
+                           sample={"method": fn.short, "constructor": norm(call.func), "parameters": src})
 
 
 def rule_D(run, prog):
